@@ -329,3 +329,177 @@ def c20(case):
         except Exception as e:  # noqa
             return _exc(e)
     raise ValueError(mode)
+
+
+# ---------------------------------------------------------------------------
+# PLSSDesc observations (C03, C04, C09, C10, C11)
+
+_CULLED = re.compile(r"(?:[\s.,;:\-–—]|\bthe\b|\ball\b|\bof\b|\bin\b|\band\b)*", re.IGNORECASE)
+
+
+def _is_whole(desc, pp):
+    """desc is the entire preprocessed text, up to what cleanup_desc removes at the ends."""
+    if not isinstance(desc, str) or not isinstance(pp, str):
+        return False
+    if desc == pp:
+        return True
+    if not desc:
+        return _CULLED.fullmatch(pp) is not None
+    i = pp.find(desc)
+    if i < 0:
+        return False
+    return _CULLED.fullmatch(pp[:i]) is not None and _CULLED.fullmatch(pp[i + len(desc):]) is not None
+
+
+def _flags_typed(flags, lines):
+    return (isinstance(flags, list) and all(isinstance(f, str) for f in flags)
+            and isinstance(lines, list)
+            and all(isinstance(x, tuple) and len(x) == 2 and isinstance(x[0], str) and isinstance(x[1], str)
+                    for x in lines))
+
+
+def _intern(table, x):
+    key = x if isinstance(x, str) else repr(x)
+    return table.setdefault(key, len(table) + 1)
+
+
+def _firsts(table, lines):
+    out = []
+    for x in lines if isinstance(lines, list) else []:
+        out.append(_intern(table, x[0] if isinstance(x, tuple) and len(x) >= 1 else ("<bare>", repr(x))))
+    return out
+
+
+def plss_make(a):
+    """Create (and parse) a PLSSDesc the way the case says."""
+    import pytrs
+    text, cfg = a["text"], a.get("config")
+    lay, ch = a.get("layout"), a.get("layout_channel", "kw")
+    kw = dict(a.get("kw") or {})
+    src = a.get("source", "SRC-1")
+    if lay and ch == "kw":
+        return pytrs.PLSSDesc(text, config=cfg, layout=lay, source=src, **kw)
+    if lay and ch == "config":
+        cfg2 = ",".join(x for x in (cfg, lay) if x)
+        return pytrs.PLSSDesc(text, config=cfg2, source=src, **kw)
+    if lay and ch == "parse":
+        d = pytrs.PLSSDesc(text, config=cfg, source=src, wait_to_parse=True, **kw)
+        d.parse(layout=lay)
+        return d
+    return pytrs.PLSSDesc(text, config=cfg, source=src, **kw)
+
+
+def plss_project(d, a):
+    from . import render as R
+    table = {}
+    marks = a.get("markers") or []
+    pp = d.pp_desc
+    tracts = []
+    for t in d.tracts:
+        tracts.append({
+            "trs": _chars(t.trs), "attrs": trs_attrs_from_obj(t),
+            "whole": _is_whole(t.desc, pp),
+            "orig_ok": t.orig_desc == a["text"], "source_ok": t.source == a.get("source", "SRC-1"),
+            "index": t.orig_index if isinstance(t.orig_index, int) else -1,
+            "markers": [m for m in marks if isinstance(t.desc, str) and R.marker(m) in t.desc],
+            "wflags": [_intern(table, f) for f in t.w_flags], "eflags": [_intern(table, f) for f in t.e_flags],
+            "wfirsts": _firsts(table, t.w_flag_lines), "efirsts": _firsts(table, t.e_flag_lines),
+            "typed": _flags_typed(t.w_flags, t.w_flag_lines) and _flags_typed(t.e_flags, t.e_flag_lines),
+        })
+    unused_text = " ".join(f for f in d.e_flags if isinstance(f, str) and f.startswith("unused_desc<"))
+    trig = []
+    for tg in a.get("triggers") or []:
+        kind, phrase = tg["kind"], " ".join(tg["phrase"].split()).lower()
+        raised = kind in d.w_flags
+        ctxs = [" ".join(x[1].split()).lower() for x in d.w_flag_lines
+                if isinstance(x, tuple) and len(x) == 2 and x[0] == kind and isinstance(x[1], str)]
+        trig.append({"kind": kind, "raised": raised, "in_context": any(phrase in c for c in ctxs)})
+    return {
+        "exc": "none", "layout": d.current_layout if isinstance(d.current_layout, str) else "?",
+        "tracts": tracts,
+        "wflags": [_intern(table, f) for f in d.w_flags], "eflags": [_intern(table, f) for f in d.e_flags],
+        "wfirsts": _firsts(table, d.w_flag_lines), "efirsts": _firsts(table, d.e_flag_lines),
+        "typed": _flags_typed(d.w_flags, d.w_flag_lines) and _flags_typed(d.e_flags, d.e_flag_lines),
+        "flawed": bool(d.desc_is_flawed),
+        "unused": [m for m in marks if R.marker(m) in unused_text],
+        "trig": trig,
+        "raw": {"layout": d.current_layout, "tracts": [(t.trs, (t.desc or "")[:60]) for t in d.tracts][:8],
+                "w_flags": [str(f)[:60] for f in d.w_flags][:8], "e_flags": [str(f)[:60] for f in d.e_flags][:8]},
+    }
+
+
+EMPTY_OBS = {"layout": "?", "tracts": [], "wflags": [], "eflags": [], "wfirsts": [], "efirsts": [], "typed": True,
+             "flawed": False, "unused": [], "trig": []}
+
+
+def plss(case):
+    a = case["args"]
+    try:
+        d = plss_make(a)
+        return plss_project(d, a)
+    except Exception as e:  # noqa
+        o = dict(EMPTY_OBS)
+        o.update(_exc(e))
+        import traceback
+        o["raw"] = {"traceback": traceback.format_exc()[-600:]}
+        return o
+
+
+def plss_entry(case):
+    """Other entry points (C03): only exception / tract count are observed."""
+    import pytrs
+    a = case["args"]
+    o = dict(EMPTY_OBS)
+    try:
+        if a["entry"] == "plss_parse":
+            d = pytrs.PLSSDesc(a["text"], config=a.get("config"), wait_to_parse=True)
+            tl = d.parse(**(a.get("parse_kw") or {}))
+            n = len(tl)
+        elif a["entry"] == "tract_init":
+            t = pytrs.Tract(a["text"], config=a.get("config"), parse_qq=True)
+            n = 1
+        else:
+            t = pytrs.Tract(a["text"], config=a.get("config"))
+            t.parse(**(a.get("parse_kw") or {}))
+            t.parse(commit=False)
+            n = 1
+        o["exc"] = "none"
+        # one dummy well-formed tract per produced tract so that AtLeastOneTract can be evaluated
+        o["tracts"] = [{"trs": list("XXXzXXXzXX"), "whole": False, "orig_ok": True, "source_ok": True, "index": i,
+                        "markers": [], "wflags": [], "eflags": [], "wfirsts": [], "efirsts": [], "typed": True,
+                        "attrs": {}} for i in range(min(n, 3))]
+        o["raw"] = {"n": n}
+        return o
+    except Exception as e:  # noqa
+        o.update(_exc(e))
+        import traceback
+        o["raw"] = {"traceback": traceback.format_exc()[-600:]}
+        return o
+
+
+def argcheck(case):
+    import pytrs
+    k = case["args"]["kind"]
+    calls = {
+        "text_int": lambda: pytrs.PLSSDesc(123),
+        "text_none": lambda: pytrs.PLSSDesc(None),
+        "text_bytes": lambda: pytrs.PLSSDesc(b"T154N-R97W Sec 14: NE/4"),
+        "text_list": lambda: pytrs.PLSSDesc(["T154N-R97W Sec 14: NE/4"]),
+        "config_int": lambda: pytrs.PLSSDesc("T154N-R97W Sec 14: NE/4", config=5),
+        "config_list": lambda: pytrs.PLSSDesc("T154N-R97W Sec 14: NE/4", config=["clean_qq"]),
+        "config_unknown_name": lambda: pytrs.PLSSDesc("T154N-R97W Sec 14: NE/4", config="no_such_setting"),
+        "config_unknown_kv": lambda: pytrs.PLSSDesc("T154N-R97W Sec 14: NE/4", config="clean_qq,bogus.True"),
+        "default_ns_bad": lambda: pytrs.PLSSDesc("T154-R97W Sec 14: NE/4", config="default_ns.q"),
+        "default_ew_bad": lambda: pytrs.PLSSDesc("T154N-R97 Sec 14: NE/4", config="default_ew.q"),
+        "tract_config_int": lambda: pytrs.Tract("NE/4", config=5),
+        "tract_config_unknown": lambda: pytrs.Tract("NE/4", config="no_such_setting"),
+        "tract_trs_int": lambda: pytrs.Tract("NE/4", trs=15497),
+        "parse_default_ns_bad": lambda: pytrs.PLSSDesc("T154-R97W Sec 14: NE/4", wait_to_parse=True).parse(default_ns="q"),
+        "config_object_ok": lambda: pytrs.PLSSDesc("T154N-R97W Sec 14: NE/4", config=pytrs.Config("clean_qq,n,w")),
+        "config_none_ok": lambda: pytrs.Tract("NE/4", config=None, parse_qq=True),
+    }
+    try:
+        calls[k]()
+        return {"exc": "none", "bases": []}
+    except Exception as e:  # noqa
+        return {"exc": type(e).__name__, "bases": [c.__name__ for c in type(e).__mro__], "exc_msg": str(e)[:200]}
